@@ -1652,6 +1652,96 @@ Section Oracle.
       exists org4. split; [exact Lok4|]. split; [lia|]. split; [congruence|]. lia.
   Qed.
 
+
+  Lemma l2_write_spec p org s n : wf_p p -> l2_hist_ok p -> l2ok p org s -> 0 <= n <= I32_MAX ->
+    sum_fill (l2_tr _ s) + n <= 4611686018427387904 ->
+    okor (l2_write PS parse chunkc s n) (fun r =>
+      exists org1, l2ok p org1 (fst r) /\ snd r = RWrote n /\ l2_chunk _ (fst r) = l2_chunk _ s /\
+        sum_fill (l2_tr _ (fst r)) = sum_fill (l2_tr _ s) + n).
+  Proof.
+    intros W HH Lok Hn Hbig. unfold l2_write.
+    eapply okor_bind.
+    { apply (l2_write_loop_spec p W HH (write_fuel2 PS s n) s org n 0 Lok Hn Hbig).
+      destruct Lok as (L & _). pose proof L as [Lp _ I _ _ _ _].
+      pose proof (ei_lz _ _ _ _ I) as [[? ?] ? ? ? ?]. pose proof (ei_ra _ _ _ _ I). pose proof (qflag_range (l2_e _ s)).
+      unfold write_fuel2, wmeasure, pidx in *. rewrite Lp. lia. }
+    intros [s1 off1] (org1 & Lok1 & O1 & C1 & F1). cbn [fst snd okor] in *.
+    exists org1. split; [exact Lok1|]. split; [f_equal; lia|]. split; assumption.
+  Qed.
+
+  (* what the calls of an LZMA2Writer return *)
+  Fixpoint l2_results (cur : Z) (ops : list wop) : list opres * Z * bool :=
+    match ops with
+    | [] => ([], cur, false)
+    | OpWrite n :: r => let '(rs, c, f) := l2_results (cur + n) r in (RWrote n :: rs, c, f)
+    | OpFlush :: r => let '(rs, c, f) := l2_results cur r in (RDone :: rs, c, f)
+    | OpFinish :: _ => ([RDone], cur, true)
+    end.
+
+  Lemma l2_run_spec p : wf_p p -> l2_hist_ok p -> forall ops s org acc,
+    l2ok p org s -> ops_ok ops ->
+    sum_fill (l2_tr _ s) + ops_total ops <= 4611686018427387904 ->
+    okor (l2_run PS parse chunkc s ops acc) (fun r =>
+      let '(s1, res) := r in
+      let '(rs, c, fin) := l2_results (sum_fill (l2_tr _ s)) ops in
+      res = rev acc ++ rs /\ sum_fill (l2_tr _ s1) = c /\
+      (fin = true -> sum_chunk (l2_tr _ s1) = c /\ sum_sym (l2_tr _ s1) + sum_abs (l2_tr _ s1) = c)).
+  Proof.
+    intros W HH. induction ops as [|op r IH]; intros s org acc Lok Hok Hcap.
+    - cbn [l2_run l2_results okor]. rewrite frev_rev, app_nil_r. split; [reflexivity|]. split; [reflexivity|discriminate].
+    - destruct op as [n| |]; cbn [l2_run l2_results ops_total ops_ok] in *.
+      + destruct Hok as [Hn Hok]. pose proof (ops_total_nonneg _ Hok).
+        eapply okor_bind; [apply (l2_write_spec p org s n W HH Lok Hn); lia|].
+        intros [s1 res] (org1 & Lok1 & E2 & C1 & F1). cbn [fst snd] in *. subst res.
+        eapply okor_weaken; [apply (IH s1 org1 (RWrote n :: acc) Lok1 Hok); lia|].
+        intros [s2 res2]. rewrite F1. destruct (l2_results (sum_fill (l2_tr PS s) + n) r) as [[rs c] fin].
+        intros (R1 & R2 & R3). split; [|split; assumption].
+        rewrite R1. cbn [rev]. rewrite <- app_assoc. reflexivity.
+      + eapply okor_bind; [apply (l2_flush_spec p org s W HH Lok)|].
+        intros [s1 res] (Lok1 & E2 & P1 & C1 & F1). cbn [fst snd] in *. subst res.
+        eapply okor_weaken; [apply (IH s1 org (RDone :: acc) Lok1 Hok); lia|].
+        intros [s2 res2]. rewrite F1. destruct (l2_results (sum_fill (l2_tr PS s)) r) as [[rs c] fin].
+        intros (R1 & R2 & R3). split; [|split; assumption].
+        rewrite R1. cbn [rev]. rewrite <- app_assoc. reflexivity.
+      + eapply okor_bind; [apply (l2_finish_spec p org s W HH Lok)|].
+        intros [s1 res] (E1 & E2 & E3 & E4). cbn [fst snd okor] in *. subst res. rewrite frev_rev. cbn [rev].
+        split; [reflexivity|]. split; [exact E2|]. intros _. split; lia.
+  Qed.
+
+  Lemma l2_new_spec normal bt4 dict nice preset chunk ps0 : opts_ok dict nice ->
+    (match preset with Some plen => 0 <= plen | None => True end) ->
+    okor (l2_new_repaired PS normal bt4 dict nice preset chunk ps0) (fun s =>
+      exists p org, wf_p p /\ l2_hist_ok p /\ l2ok p org s /\ sum_fill (l2_tr _ s) = 0 /\
+        dict_size p = dict /\ keep_before p = get_extra_size_before dict + mode_extra_before normal + dict).
+  Proof.
+    intros Ho Hpl. pose proof Ho as [[Hd1 Hd2] [Hn1 Hn2]].
+    unfold l2_new_repaired, l2_new_with, enc_new, extra_before_sum, get_extra_size_before, COMPRESSED_SIZE_MAX.
+    assert (Hmb : 1 <= mode_extra_before normal <= 4096)
+      by (unfold mode_extra_before, NORMAL_EXTRA_BEFORE, FAST_EXTRA_BEFORE; destruct normal; lia).
+    rewrite ck_u32_ok by (unfold U32_MAX; lia). cbn [obind].
+    destruct (enc_new_with_spec (Z.max 0 (65536 - dict) + mode_extra_before normal) normal bt4 dict nice Ho)
+      as (p & E & W & Kb & Ds & Mb & Ea & Ml & Ka & Hbuf); [lia|].
+    rewrite E. cbn [obind].
+    assert (HH : l2_hist_ok p) by (unfold l2_hist_ok, COMPRESSED_SIZE_MAX; lia).
+    assert (Hub0 : 0 <= UNC_BOUND p).
+    { unfold UNC_BOUND, SYM_MAX, LZMA2_UNCOMPRESSED_LIMIT. pose proof (wf_ea p W). lia. }
+    destruct preset as [plen|].
+    - eapply okor_bind; [apply (preset_spec p dict plen W Ds Hbuf Hpl)|].
+      intros [d1 tr1]. cbn [fst snd okor]. intros (I & F & Q & Acc). injection Acc as E1 E2 E3 E4.
+      cbn [sum_sym sum_fill sum_abs sum_chunk] in *.
+      exists p, (- Z.min plen dict). split; [exact W|]. split; [exact HH|]. split.
+      { split.
+        - constructor; cbn [l2_p l2_new l2_e l2_tr l2_pending l2_unc]; try assumption; try reflexivity; try lia.
+        - split; [exact F|]. split; [reflexivity|]. exact Hub0. }
+      cbn [l2_tr]. repeat split; try assumption; lia.
+    - cbn [okor]. destruct (enc0_einv p W) as (I & F & Q).
+      exists p, 0. split; [exact W|]. split; [exact HH|]. split.
+      { split.
+        - constructor; cbn [l2_p l2_new l2_e l2_tr l2_pending l2_unc sum_fill sum_chunk]; try assumption; try reflexivity; try lia.
+        - split; [exact F|]. split; [reflexivity|]. exact Hub0. }
+      cbn [l2_tr sum_fill]. repeat split; try assumption; lia.
+  Qed.
+
 End Oracle.
 
 (* =============================================================================================
